@@ -47,17 +47,50 @@ def name_replay(name):
 NAMES = ["a", "A1", "_x", "a.b", "a-b", "1a", "", "a b", "a\n", "\na", "é", "a.", ".a", "a/b", "a\x00", "a\r", "Z9._", "a\n\n", "a "]
 
 
-def _q19n(k):
-    if not q.in_range(k, len(NAMES)):
+NAME_MODES = ["Target()", "Workflow.target", "target_from_template", "map with a naming function", "map with a string prefix"]
+
+
+def name_via(mode, name):
+    """Is `name` accepted as a target name when the target is created this way?"""
+    wf = Workflow(working_dir="/w")
+    tmpl = AnonymousTarget(inputs=[], outputs=[], options={}, group="g", spec="x")
+    try:
+        if mode == 0:
+            Target(name=name, inputs=[], outputs=[], options={}, working_dir="/w")
+        elif mode == 1:
+            wf.target(name, inputs=[], outputs=[])
+        elif mode == 2:
+            wf.target_from_template(name, tmpl)
+        elif mode == 3:
+            wf.map(lambda x: tmpl, ["i"], name=lambda idx, t: name)
+        else:
+            wf.map(lambda x: tmpl, ["i"], name=name)          # generated name: <name>_0
+        return True
+    except GWFError:
+        return False
+
+
+def _q19n(k, mode):
+    if not (q.in_range(k, len(NAMES)) and q.in_range(mode, len(NAME_MODES))):
         return q.SKIP
-    return name_replay(q.pick(NAMES, k)) or ""
+    name = q.pick(NAMES, k)
+    mode = q.pick([0, 1, 2, 3, 4], mode)
+    msg = name_replay(name)
+    if msg:
+        return msg
+    effective = name + "_0" if mode == 4 else name
+    want = SPEC_NAME.fullmatch(effective) is not None
+    got = name_via(mode, name)
+    if got != want:
+        return "%s with name %r: accepted=%s, identifier-like=%s" % (NAME_MODES[mode], effective, got, want)
+    return ""
 
 
-def q19n(k: int) -> str:
+def q19n(k: int, mode: int) -> str:
     """
     post: _ == ""
     """
-    return q.run(_q19n, (k,))
+    return q.run(_q19n, (k, mode))
 
 
 # ---------------------------------------------------------------- path validators (symbolic str)
@@ -303,7 +336,7 @@ def q19m(n: int, naming: int, dup: bool) -> str:
 QUERIES = [
     {"name": "E2name", "fn": name_replay, "smt": lambda shard: kernels.name_language(), "smt_samples": [[n] for n in NAMES], "shards": [{}], "timeout": 120,
      "bound": "unbounded: language of the regular expression read from utils.is_valid_name (with Python's semantics of the re function and of ^/$) = [A-Za-z_][A-Za-z0-9._]* ; z3 5.1, z3 4.8.12 and cvc5 must all answer unsat"},
-    {"name": "Q19n", "fn": q19n, "shards": [{}], "timeout": 200, "bound": "name catalogue %r through is_valid_name and Target()" % (NAMES,)},
+    {"name": "Q19n", "fn": q19n, "shards": [{}], "timeout": 200, "bound": "name catalogue %r through is_valid_name and through every way of creating a target: %s" % (NAMES, NAME_MODES)},
     {"name": "Q19p", "fn": q19p, "shards": {"quick": [{"maxlen": 1, "maxord": 255}], "thorough": [{"maxlen": 2, "maxord": 34}, {"maxlen": 1, "maxord": 0x2FF}]}, "timeout": {"quick": 400, "thorough": 1500},
      "bound": "path = symbolic str of length <= 1 (quick) / <= 1 over code points <= U+02FF and <= 2 over code points <= 34 (thorough); quick: length <= 1, code points <= 255; as input, named output or working_dir: accepted iff non-empty and no control character"},
     {"name": "Q19k", "fn": q19k, "shards": [{}], "timeout": 300, "bound": "value kinds %s as input / nested output" % [k[0] for k in KINDS]},
